@@ -519,13 +519,15 @@ func (f *dataFamily) WriteRows(rows []*metric.StorageRow) error {
 		return nil
 	}
 
-	db, err := f.GetOrCreateMemoryDatabase(f.familyTime)
+	// the write permit is taken under the family lock, together with picking the memory database:
+	// otherwise a flush can freeze and flush that database in between, and rows written afterwards
+	// are never flushed although their sequence is committed.
+	db, err := f.acquireMemoryDatabaseForWrite(f.familyTime)
 	if err != nil {
 		// all rows are dropped
 		f.statistics.WriteMetricFailures.Add(float64(len(rows)))
 		return err
 	}
-	db.AcquireWrite()
 	defer func() {
 		f.statistics.WriteBatches.Incr()
 		db.CompleteWrite()
@@ -592,6 +594,24 @@ func (f *dataFamily) AckSequence(leader int32, fn func(seq int64)) {
 func (f *dataFamily) GetOrCreateMemoryDatabase(familyTime int64) (memdb.MemoryDatabase, error) {
 	f.mutex.Lock()
 	defer f.mutex.Unlock()
+	return f.getOrCreateMemoryDatabase(familyTime)
+}
+
+// acquireMemoryDatabaseForWrite returns the mutable memory database with a write permit taken
+// while the family lock is held, so that a flush cannot freeze the database before the permit exists.
+func (f *dataFamily) acquireMemoryDatabaseForWrite(familyTime int64) (memdb.MemoryDatabase, error) {
+	f.mutex.Lock()
+	defer f.mutex.Unlock()
+	db, err := f.getOrCreateMemoryDatabase(familyTime)
+	if err != nil {
+		return nil, err
+	}
+	db.AcquireWrite()
+	return db, nil
+}
+
+// getOrCreateMemoryDatabase returns the mutable memory database, creating it if absent; the caller holds the family lock.
+func (f *dataFamily) getOrCreateMemoryDatabase(familyTime int64) (memdb.MemoryDatabase, error) {
 
 	if f.mutableMemDB == nil {
 		newDB, err := newMemoryDBFunc(&memdb.MemoryDatabaseCfg{
